@@ -916,3 +916,78 @@ func derefsPath(v ssa.Value, key string, depth int, seen map[ssa.Value]bool) boo
 	}
 	return false
 }
+
+// INVSIGN (C10): "this setting is set" is `!= 0` for a signed field: -1 is the usual spelling of `unlimited` and is
+// a value like any other when two settings must agree. In checkConsistency and the helpers it calls, a signed
+// number that comes from the model (a field, or a parameter of a helper that is handed one) is not compared with
+// zero by order (`> 0`): a negative value would count as not set and a disagreeing pair would load.
+func (c *Ctx) INVSIGN(rule string) []report.Obligation {
+	f := c.P.Func("loader.checkConsistency")
+	if f == nil {
+		return []report.Obligation{anchorViolation(rule, "loader.checkConsistency")}
+	}
+	var out []report.Obligation
+	fset := []*ssa.Function{f}
+	seenF := map[*ssa.Function]bool{f: true}
+	for i := 0; i < len(fset) && i < 24; i++ {
+		for _, cs := range callSites(fset[i], func(com *ssa.CallCommon) bool {
+			cal := com.StaticCallee()
+			return cal != nil && c.P.InModule(cal) && cal.Blocks != nil && strings.HasPrefix(c.P.FuncID(cal), "loader.")
+		}) {
+			if g := cs.Common().StaticCallee(); !seenF[g] {
+				seenF[g] = true
+				fset = append(fset, g)
+			}
+		}
+	}
+	n := 0
+	for _, g := range fset {
+		for _, b := range g.Blocks {
+			for _, in := range b.Instrs {
+				bo, ok := in.(*ssa.BinOp)
+				if !ok {
+					continue
+				}
+				switch bo.Op {
+				case token.GTR, token.GEQ, token.LSS, token.LEQ:
+				default:
+					continue
+				}
+				val, other := bo.X, bo.Y
+				if _, isC := val.(*ssa.Const); isC {
+					val, other = bo.Y, bo.X
+				}
+				oc, isC := other.(*ssa.Const)
+				if !isC || oc.Value == nil || (oc.Value.ExactString() != "0" && oc.Value.ExactString() != "1") {
+					continue
+				}
+				bt, isB := val.Type().Underlying().(*types.Basic)
+				if !isB || bt.Info()&types.IsNumeric == 0 || bt.Info()&types.IsUnsigned != 0 {
+					continue
+				}
+				fromModel := loadedField(val) != ""
+				if _, isParam := val.(*ssa.Parameter); isParam && g != f {
+					fromModel = true
+				}
+				if call, isCall := val.(*ssa.Call); isCall {
+					// len(...) and scale counters are not settings
+					if bi, isBi := call.Call.Value.(*ssa.Builtin); isBi && bi.Name() == "len" {
+						continue
+					}
+				}
+				if !fromModel {
+					continue
+				}
+				// the counted quantities (scale, replicas) are compared with 1 on purpose
+				if loadedField(val) == "" && g == f {
+					continue
+				}
+				n++
+				out = append(out, bad(rule, c.P.FuncID(g)+" :: "+c.P.KeyTerm(val, 2)+" tested for being set by its sign", c.P.InstrPos(bo),
+					"a signed setting is compared with zero by order: a negative value (-1, unlimited) counts as `not set`, so a pair that disagrees with it is not reported"))
+			}
+		}
+	}
+	out = append(out, report.Obligation{Rule: rule, Key: "checkConsistency :: settings are tested for being set with != 0", Status: report.Discharged, Why: fmt.Sprintf("%d functions inspected, %d sign tests of model values", len(fset), n)})
+	return out
+}
